@@ -8,9 +8,9 @@
      root --Pick block--> block b --Pick index--> expression i (i % NBlocks = b)
    and the invariant Holds is evaluated in every "expression" state, on all documents at once.
    The heavy tables live in the variable g, which VIEW hides from fingerprinting. *)
-EXTENDS Families
+EXTENDS Families, Strict
 
-CONSTANTS NBlocks, Stride, Seed
+CONSTANTS NBlocks, Stride, Stride3, Seed
 
 VARIABLES g, blk, idx
 vars == <<g, blk, idx>>
@@ -19,7 +19,7 @@ View == <<blk, idx>>
 Init == g = Ctx /\ blk = -1 /\ idx = -1
 PickBlock == blk = -1 /\ blk' \in 0..(NBlocks - 1) /\ UNCHANGED <<g, idx>>
 PickIndex == /\ blk >= 0 /\ idx = -1
-             /\ idx' \in {j \in 0..(g.total - 1) : j % NBlocks = blk /\ (j \div NBlocks) % Stride = Seed % Stride}
+             /\ idx' \in SeqSet(MineSeq(g, blk, NBlocks, Stride, Stride3, Seed))
              /\ UNCHANGED <<g, blk>>
 Next == PickBlock \/ PickIndex
 Spec == Init /\ [][Next]_vars
@@ -47,7 +47,145 @@ CoreThm(e, d) ==
   /\ (e[1] = "Field" /\ d[1] # "obj" => o = OkS(Null))
   /\ (e[1] = "Index" /\ d[1] # "arr" => o = OkS(Null))
 
-Thm(e, d) == CASE Family = "C01" -> CoreThm(e, d)
+(* every outcome is ok / err / one of the declared open outcomes, and ok values are JSON (C16) *)
+WellFormed(o) == /\ o # {}
+                 /\ \A x \in o : x[1] \in {"ok", "err", "unspec", "numornull"} /\ (x[1] = "ok" => IsJSON(x[2]))
+Det(SS) == Cardinality(SS) = 1
+TheOk(SS) == (CHOOSE x \in SS : TRUE)[2]
 
-Holds == idx >= 0 => LET e == ExprAt(g, idx) IN \A d \in 1..Len(g.docs) : Thm(e, g.docs[d])
+(* C02: a projection's result is an array without nulls, no longer than what it iterates over; with
+   the identity as right-hand side it is the left array minus nulls (order kept); an object wildcard
+   has at most one entry per member, exactly the non-null member values for the identity;
+   flatten leaves a flat array unchanged. *)
+NoNullArr(v) == v[1] = "arr" /\ \A i \in 1..Len(v[2]) : v[2][i][1] # "null"
+SeqBag(xs) == [y \in {xs[i] : i \in 1..Len(xs)} |-> Cardinality({i \in 1..Len(xs) : xs[i] = y})]
+ProjThm(e, d) ==
+  LET o == Outcomes(e, d) IN
+  /\ WellFormed(o)
+  /\ (e[1] \in {"Projection", "ValueProjection", "FilterProjection"} =>
+        \A x \in o : x[1] = "ok" => (x[2][1] = "null" \/ NoNullArr(x[2])))
+  /\ (e[1] = "Projection" /\ e[3] = Identity =>
+        \A l \in Outcomes(e[2], d) : l[1] = "ok" =>
+            (IF l[2][1] = "arr" THEN Ok(Arr(DropNull(l[2][2]))) \in o ELSE Ok(Null) \in o))
+  /\ (e[1] = "ValueProjection" =>
+        \A l \in Outcomes(e[2], d) : (l[1] = "ok" /\ Det(Outcomes(e[2], d))) =>
+            IF l[2][1] # "obj" THEN o = OkS(Null)
+            ELSE \A x \in o : x[1] = "ok" =>
+                   /\ Len(x[2][2]) <= Cardinality(l[2][2])
+                   /\ (e[3] = Identity => SeqBag(x[2][2]) = SeqBag(DropNull([i \in 1..Cardinality(l[2][2]) |-> SeqOfSet(l[2][2])[i][2]]))))
+  /\ (e[1] = "FilterProjection" /\ Det(Outcomes(e[2], d)) =>
+        \A l \in Outcomes(e[2], d) : l[1] = "ok" =>
+            IF l[2][1] # "arr" THEN o = OkS(Null) ELSE \A x \in o : x[1] = "ok" => Len(x[2][2]) <= Len(l[2][2]))
+  /\ (e[1] = "Flatten" => \A l \in Outcomes(e[2], d) : l[1] = "ok" =>
+            IF l[2][1] # "arr" THEN Ok(Null) \in o
+            ELSE IF \A i \in 1..Len(l[2][2]) : l[2][2][i][1] # "arr" THEN Ok(l[2]) \in o ELSE TRUE)
+
+(* C07 *)
+OpThm(e, d) ==
+  LET o == Outcomes(e, d) k == e[1] IN
+  /\ WellFormed(o)
+  /\ (k = "OrExpression" => \A l \in Outcomes(e[2], d) :
+         IF l[1] # "ok" THEN l \in o ELSE IF IsFalse(l[2]) THEN Outcomes(e[3], d) \subseteq o ELSE l \in o)
+  /\ (k = "OrExpression" /\ Det(Outcomes(e[2], d)) /\ Det(Outcomes(e[3], d)) => o \subseteq Outcomes(e[2], d) \cup Outcomes(e[3], d))
+  /\ (k = "AndExpression" => \A l \in Outcomes(e[2], d) :
+         IF l[1] # "ok" THEN l \in o ELSE IF IsFalse(l[2]) THEN l \in o ELSE Outcomes(e[3], d) \subseteq o)
+  /\ (k = "AndExpression" /\ Det(Outcomes(e[2], d)) /\ Det(Outcomes(e[3], d)) => o \subseteq Outcomes(e[2], d) \cup Outcomes(e[3], d))
+  /\ (k = "NotExpression" => \A x \in o : x[1] = "ok" => x[2][1] = "bool")
+  /\ (k = "NotExpression" /\ e[2][1] = "NotExpression" => \A l \in Outcomes(e[2][2], d) : l[1] = "ok" => Ok(Bool(~IsFalse(l[2]))) \in o)
+  /\ (k = "Comparator" => \A l \in Outcomes(e[3], d), r \in Outcomes(e[4], d) : (l[1] = "ok" /\ r[1] = "ok") =>
+         LET res(op) == Outcomes(Cmp(op, Lit(l[2]), Lit(r[2])), Null)
+             t(op) == res(op) = OkS(Bool(TRUE)) IN
+         /\ (~HasOpaque(l[2]) /\ ~HasOpaque(r[2]) => /\ res("eq") \in {OkS(Bool(TRUE)), OkS(Bool(FALSE))}
+                                                     /\ t("eq") = ~t("ne")
+                                                     /\ (l[2][1] # r[2][1] => ~t("eq"))
+                                                     /\ (t("eq") = (l[2] = r[2])))
+         /\ (IF l[2][1] = "num" /\ r[2][1] = "num"
+             THEN /\ Cardinality({op \in {"lt", "eq", "gt"} : t(op)}) = 1
+                  /\ t("lte") = (t("lt") \/ t("eq")) /\ t("gte") = (t("gt") \/ t("eq"))
+             ELSE \A op \in {"lt", "lte", "gt", "gte"} : res(op) = OkS(Null)))
+
+(* C09 / C10 *)
+IsSortedBy(ks) == \A i \in 1..(Len(ks) - 1) : ~KeyLess(ks[i + 1], ks[i])
+OkOf(o) == {x \in o : x[1] = "ok"}
+FnThm(e, d) ==
+  LET o == Outcomes(e, d) IN
+  /\ WellFormed(o)
+  /\ (e[1] = "FunctionExpression" =>
+       LET name == FnOf(e[2]) IN
+       \A args \in OkVals(EvEach(e[3], d)) :
+         /\ (~ArgsOK(name, args) => o = ErrS)                                     \* C10
+         /\ (ArgsOK(name, args) /\ name \notin ByExpr /\ name # "contains" /\ Det(EvEach(e[3], d)) => ERR \notin o)
+         /\ (ArgsOK(name, args) /\ ~Opaque(args) /\ Det(EvEach(e[3], d)) =>
+              LET a == args[1] IN
+              CASE name = "sort" -> \A x \in OkOf(o) : /\ IsSortedBy(x[2][2]) /\ SeqBag(x[2][2]) = SeqBag(a[2])
+                [] name = "reverse" -> \A x \in OkOf(o) : Outcomes(C1("reverse", Lit(x[2])), Null) = OkS(a)
+                [] name \in {"max", "min"} -> \A x \in OkOf(o) : IF a[2] = <<>> THEN x[2] = Null
+                                                ELSE /\ \E i \in 1..Len(a[2]) : a[2][i] = x[2]
+                                                     /\ \A i \in 1..Len(a[2]) : IF name = "max" THEN ~KeyLess(x[2], a[2][i]) ELSE ~KeyLess(a[2][i], x[2])
+                [] name = "merge" -> \A x \in OkOf(o) : /\ Keys(x[2]) = UNION {Keys(args[i]) : i \in 1..Len(args)}
+                                                   /\ \A kk \in Keys(x[2]) : Lookup(x[2], kk) = Lookup(args[MaxS({i \in 1..Len(args) : kk \in Keys(args[i])})], kk)
+                [] name = "keys" -> \A x \in OkOf(o) : Len(x[2][2]) = Cardinality(a[2]) /\ {x[2][2][i][2] : i \in 1..Len(x[2][2])} = Keys(a)
+                [] name = "values" -> \A x \in OkOf(o) : SeqBag(x[2][2]) = SeqBag([i \in 1..Cardinality(a[2]) |-> SeqOfSet(a[2])[i][2]])
+                [] name = "sum" -> a[2] # <<>> => \A x \in OkOf(o), y \in Outcomes(C1("avg", Lit(a)), Null) : x[2][2] * y[2][3] = y[2][2] * Len(a[2]) * x[2][3]
+                [] name = "avg" -> a[2] = <<>> => o = OkS(Null)
+                [] name = "abs" -> \A x \in OkOf(o) : x[2][2] >= 0 /\ (x[2] = a \/ x[2] = Num(-a[2], a[3]))
+                [] name \in {"ceil", "floor"} -> \A x \in OkOf(o) : /\ x[2][3] = 1
+                                                   /\ (IF name = "floor" THEN x[2][2] * a[3] <= a[2] /\ a[2] < (x[2][2] + 1) * a[3]
+                                                                        ELSE (x[2][2] - 1) * a[3] < a[2] /\ a[2] <= x[2][2] * a[3])
+                [] name = "starts_with" -> o = OkS(Bool(Len(args[2][2]) <= Len(a[2]) /\ SubSeq(a[2], 1, Len(args[2][2])) = args[2][2]))
+                [] name = "ends_with" -> o = OkS(Bool(Len(args[2][2]) <= Len(a[2]) /\ SubSeq(a[2], Len(a[2]) - Len(args[2][2]) + 1, Len(a[2])) = args[2][2]))
+                [] name = "contains" /\ a[1] = "str" /\ args[2][1] = "str" ->
+                     o = OkS(Bool(\E i \in 1..(Len(a[2]) + 1) : i + Len(args[2][2]) - 1 <= Len(a[2]) /\ SubSeq(a[2], i, i + Len(args[2][2]) - 1) = args[2][2]))
+                [] name = "join" -> \A x \in OkOf(o) : Len(x[2][2]) = SumR([i \in 1..Len(args[2][2]) |-> I(Len(args[2][2][i][2]))])[2]
+                                                                 + Len(a[2]) * (IF Len(args[2][2]) = 0 THEN 0 ELSE Len(args[2][2]) - 1)
+                [] name = "length" -> \A x \in OkOf(o) : x[2][1] = "num" /\ x[2][2] >= 0
+                [] name = "type" -> \A x \in OkOf(o) : x[2][1] = "str"
+                [] name = "to_array" -> \A x \in OkOf(o) : x[2][1] = "arr" /\ Outcomes(C1("to_array", Lit(x[2])), Null) = {x}
+                [] name = "not_null" -> \A x \in OkOf(o) : (x[2] = Null) = (\A i \in 1..Len(args) : args[i] = Null)
+                [] name = "map" -> \A x \in OkOf(o) : x[1] = "ok" => Len(x[2][2]) = Len(args[2][2])
+                [] name = "sort_by" ->
+                     \A ksO \in MapOut(args[2][2], a[2]) :
+                       IF ksO[1] = "ok" /\ KeysOpaque(ksO[2]) THEN TRUE
+                       ELSE IF ksO[1] # "ok" \/ ~KeysUniform(ksO[2]) THEN ERR \in o
+                       ELSE \A x \in OkOf(o) : x[1] = "ok" =>
+                              /\ SeqBag(x[2][2]) = SeqBag(a[2])
+                              /\ \A ks2 \in OkVals(MapOut(args[2][2], x[2][2])) : IsSortedBy(ks2)
+                [] name \in {"max_by", "min_by"} ->
+                     \A ksO \in MapOut(args[2][2], a[2]) :
+                       IF ksO[1] = "ok" /\ KeysOpaque(ksO[2]) THEN TRUE
+                       ELSE IF ksO[1] # "ok" \/ ~KeysUniform(ksO[2]) THEN ERR \in o
+                       ELSE IF a[2] = <<>> THEN o = OkS(Null)
+                       ELSE \A x \in OkOf(o) : x[1] = "ok" =>
+                              \E i \in 1..Len(a[2]) :
+                                 /\ a[2][i] = x[2]
+                                 /\ \A j \in 1..Len(a[2]) : IF name = "max_by" THEN ~KeyLess(ksO[2][i], ksO[2][j]) ELSE ~KeyLess(ksO[2][j], ksO[2][i])
+                                 /\ \A j \in 1..(i - 1) : IF name = "max_by" THEN KeyLess(ksO[2][j], ksO[2][i]) ELSE KeyLess(ksO[2][i], ksO[2][j])
+                [] OTHER -> TRUE))
+
+(* C11: the context of an index-decoded expression: same decoding with the L1 element replaced by the hole *)
+CtxAt(gg, i) ==
+  IF i < gg.t1 THEN Hole
+  ELSE IF i < gg.t1 + gg.t2 THEN WrapCode(gg, (i - gg.t1) % gg.sum, Hole)
+  ELSE LET o == (i - gg.t1 - gg.t2) % (gg.sum * gg.sum) IN WrapCode(gg, o % gg.sum, WrapCode(gg, o \div gg.sum, Hole))
+BaseAt(gg, i) ==
+  IF i < gg.t1 THEN gg.l1[i + 1]
+  ELSE IF i < gg.t1 + gg.t2 THEN gg.l1[((i - gg.t1) \div gg.sum) + 1]
+  ELSE gg.l1[((i - gg.t1 - gg.t2) \div (gg.sum * gg.sum)) + 1]
+AlwaysErr == {ErrAbs, ErrUnknown, ErrArity}
+ErrThm(c, x, d) ==
+  LET o == Outcomes(Plug(c, x), d) IN
+  /\ WellFormed(o)
+  /\ (x \in AlwaysErr =>
+        IF Reached(c, d) THEN ERR \in o /\ (Det(Outcomes(Plug(c, Lit(Null)), d)) => o = ErrS)
+        ELSE o = Outcomes(Plug(c, Lit(Null)), d))
+
+Thm(e, d) == CASE Family = "C01" -> CoreThm(e, d)
+               [] Family = "C02" -> ProjThm(e, d)
+               [] Family \in {"C07", "C07d"} -> OpThm(e, d)
+               [] Family \in {"C09", "C09n", "C10", "C10d", "C10k"} -> FnThm(e, d)
+               [] Family = "C16" -> WellFormed(Outcomes(e, d))
+
+Holds == idx >= 0 =>
+           IF Family = "C11" THEN LET c == CtxAt(g, idx) x == BaseAt(g, idx) IN \A d \in 1..Len(g.docs) : ErrThm(c, x, g.docs[d])
+           ELSE LET e == ExprAt(g, idx) IN \A d \in 1..Len(g.docs) : Thm(e, g.docs[d])
 =============================================================================
